@@ -16,7 +16,7 @@
    expression: C12/C15's subject). *)
 From Coq Require Import List Ascii String ZArith NArith Bool.
 From YP Require Import Outcome PyStr PyVal Doc Generated PathParser PathPrinter Searches PathsSearch
-     SpecC07 PathsEnum PathsSpec PathsLeaves PathsMain PathsResolve PathsAlias PathsAliasMain.
+     SpecC07 PathsEnum PathsSpec PathsLeaves PathsMain PathsResolve PathsAlias PathsAliasMain PathsPrint PathsPrintProofs.
 Import ListNotations.
 Open Scope string_scope.
 
@@ -343,6 +343,32 @@ Proof.
     split; [reflexivity|]. split; [reflexivity|]. split; [reflexivity|].
     split; [intros [H _]; vm_compute in H; discriminate|]. split; intros _; reflexivity.
 Qed.
+
+(* ---- "prints exactly the search results": process_yaml_file's loop over the
+        expressions with its de-duplication by str(path), and print_results in
+        the paths-only mode (-F, no -P/-L/-n, one expression or -X)
+        (Model/PathsPrint.v): the printed lines are exactly the texts of the
+        results of the accepted expressions, each text once.  (The other
+        output modes are modelled and tied; the value text of -L is an
+        oracle.) ---- *)
+Theorem C07_print_exact :
+  forall lit re_search value_text (mt : mtable) (sp : sep) (o : opts) (d : node)
+         fl exprs file idx lines bad,
+    paths_only fl (List.length exprs) ->
+    process_doc lit re_search value_text mt sp o d fl exprs file idx = Ok (lines, bad) ->
+    (forall line, In line lines -> exists e h, from lit re_search mt sp o d exprs e h /\ hit_str h = Ok line) /\
+    (forall e h, from lit re_search mt sp o d exprs e h -> exists line, In line lines /\ hit_str h = Ok line) /\
+    NoDup lines.
+Proof. exact print_exact. Qed.
+Print Assumptions C07_print_exact.
+
+(* two expressions with a common result, a rejected expression, -F -X *)
+Example C07_print_example :
+  paths_only (mkpflags true true false false false) 3 /\
+  process_doc C07_lit0 C07_re0 (fun _ => Ok "") [] Dot C07_o_v C07_doc2
+              (mkpflags true true false false false) ["=a"; "x"; "^a"] "f.yaml" 0%Z
+  = Ok (["a"; "k[0]"], true).
+Proof. split; [repeat split; auto|vm_compute; reflexivity]. Qed.
 
 (* get_search_term through the parser model *)
 Example C07_search_term_example :
